@@ -28,7 +28,7 @@ fn case(rec: &mut Rec, ctx: &Ctx, idx: u64, rng: &mut ChaCha20Rng) {
   let t: u32 = match idx % 20 {
     0 => 0,
     1 | 2 => 1,
-    3 => *pick(rng, &[64u32, 100, 128]),
+    3 => *pick(rng, if thorough { &[64u32, 100, 128, 255, 256, 257][..] } else { &[64u32, 100, 128][..] }),
     4 | 5 => rng.gen_range(17..=40),
     _ => rng.gen_range(2..=16),
   };
